@@ -17,6 +17,10 @@ def t(case):
     tot[0] += 1
     if not out.ok:
         key = out.kind + " " + ",".join(f for f in out.features if f in ("or_diff_vars","or_same_vars","not","pred","and_right_or","unconstrained_var","self_join","no_cond","empty_domain", "not_under_not") or f.startswith(("ref_","alt_","caching_")))
+        if isinstance(case, dict) and case.get("prelude") is not None:
+            key += " PRELUDE"
+        if runner.attribute(pid, out):
+            key += " [attributed " + runner.attribute(pid, out) + "]"
         kinds[key] += 1
         size = len(json.dumps(case))
         if key not in ex or size < ex[key][0]:
@@ -26,4 +30,4 @@ print("total", tot[0], "failures", sum(kinds.values()))
 for k, v in kinds.most_common():
     print(v, k)
     r = prop.render(ex[k][1]) if hasattr(prop, "render") else ex[k][1]
-    print("    ", json.dumps({kk: r[kk] for kk in r if kk in ("cond","select","doms","vars")}) if isinstance(r, dict) else r, "|", ex[k][2][:200])
+    print("    ", json.dumps({kk: r[kk] for kk in r if kk in ("cond","select","doms","vars","prelude")}) if isinstance(r, dict) else r, "|", ex[k][2][:200])
